@@ -115,9 +115,17 @@ Definition opnext (rest : str) : bool := negb (eqc (peek rest) 61 || eqc (peek r
 Lemma parse_operator_op o rest : In o ops -> opnext rest = true -> parse_operator (o ++ rest) = Ok (o, rest).
 Proof.
   intros H N. unfold opnext in N. apply negb_true_iff in N.
-  destruct H as [<-|[<-|[<-|[<-|[<-|[]]]]]]; try reflexivity.
-  unfold parse_operator. cbn [s list_ascii_of_string app eat_ws]. change (is_ws "="%char) with false. cbv iota.
-  cbn [peek adv tl]. change (eqc "="%char 61) with true. cbv iota. now rewrite N.
+  destruct H as [<-|[<-|[<-|[<-|[<-|[]]]]]].
+  - unfold parse_operator. cbn [s list_ascii_of_string app eat_ws]. change (is_ws "="%char) with false. cbv iota.
+    cbn [peek adv tl]. change (eqc "="%char 61) with true. cbv iota. now rewrite N.
+  - unfold parse_operator. cbn [s list_ascii_of_string app eat_ws]. change (is_ws ">"%char) with false. cbv iota.
+    cbn [peek adv tl]. change (eqc ">"%char 61) with false. cbv iota. cbn -[eqc peek]. now rewrite N.
+  - unfold parse_operator. cbn [s list_ascii_of_string app eat_ws]. change (is_ws "<"%char) with false. cbv iota.
+    cbn [peek adv tl]. change (eqc "<"%char 61) with false. cbv iota. cbn -[eqc peek]. now rewrite N.
+  - unfold parse_operator. cbn [s list_ascii_of_string app eat_ws]. change (is_ws "<"%char) with false. cbv iota.
+    cbn [peek adv tl]. change (eqc "<"%char 61) with false. cbv iota. cbn -[eqc peek]. now rewrite N.
+  - unfold parse_operator. cbn [s list_ascii_of_string app eat_ws]. change (is_ws ">"%char) with false. cbv iota.
+    cbn [peek adv tl]. change (eqc ">"%char 61) with false. cbv iota. cbn -[eqc peek]. now rewrite N.
 Qed.
 Lemma op_headok o rest : In o ops -> headok (o ++ rest).
 Proof. intros [<-|[<-|[<-|[<-|[<-|[]]]]]]; reflexivity. Qed.
